@@ -72,6 +72,7 @@ type c11World struct {
 	steps  []string
 	desc   []string
 	alive  map[netip.Addr]bool // peers that currently have a peer route (by our bookkeeping)
+	nPeer  int                 // peer routes added so far (drives their expiry field without touching the random stream)
 }
 
 func (w *c11World) violate(what, key string) {
@@ -229,7 +230,16 @@ func (w *c11World) opAdd(peer bool) {
 	if peer {
 		p := w.peers[c.Rng.IntN(len(w.peers))]
 		e = m.RoutingTableEntry{DstIP: p, NextHop: p, Source: m.RouteSourcePeer}
-		desc = fmt.Sprintf("AddPeer(%s)", p)
+		// a peer route is never subject to expiry, whatever its expiry field holds (zero, as AddLink
+		// writes it; a time in the past; a time ahead)
+		w.nPeer++
+		switch w.nPeer % 4 {
+		case 1:
+			e.Expires = now.Add(-20 * time.Minute)
+		case 3:
+			e.Expires = now.Add(25 * time.Minute)
+		}
+		desc = fmt.Sprintf("AddPeer(%s,expires=%d)", p, w.nPeer%4)
 	} else if cur := w.tbl.VerifEntries(); len(cur) > 0 && c.Rng.IntN(4) == 0 && cur[c.Rng.IntN(len(cur))].Source == m.RouteSourceGossip {
 		// refresh: the same route (same relays) announced again with other delays
 		var cands []m.RoutingTableEntry
